@@ -446,7 +446,7 @@ def build_parser(opts, tname, multiple, name, typegiven, default):
 
 
 CLI_CHANNELS = ["dd-eq", "d-eq", "dd-swap", "tail", "other-first"]
-SKIP_CHANNELS = ["after-ddash", "after-pos"]
+SKIP_CHANNELS = ["after-ddash", "after-pos", "empty-args"]
 
 
 def cli_args(channel, name, text):
@@ -468,6 +468,10 @@ def cli_args(channel, name, text):
         return ["prog", "x", a], ["x", a], False, 5
     if channel == "flag":
         return ["prog", "--%s" % name], [], True, 5
+    if channel == "empty-args":
+        # an explicit, empty argument list (a sub-command parser handed the "rest"): nothing is parsed - least of
+        # all the process's own sys.argv, which execute() fills with options for this very parser
+        return [], [], False, 5
     raise AssertionError(channel)
 
 
@@ -505,12 +509,22 @@ def execute(opts, ctx, tname, multiple, name, typegiven, default, channel, paylo
     try:
         if channel in ("cfg-str", "cfg-lit"):
             src = repr(payload) if channel == "cfg-str" else payload
-            ctx.write("import datetime\nzzz_unrelated = 1\n%s = %s\n" % (name.replace("-", "_"), src))
+            # the value passes through a helper defined in the config file that uses names bound at its top level
+            ctx.write("import datetime\nzzz_unrelated = 1\ndef _pick(x):\n    return (x, zzz_unrelated, datetime)[0]\n"
+                      "%s = _pick(%s)\n" % (name.replace("-", "_"), src))
             rem = p.parse_config_file(ctx.path)
             exp_rem = None
         else:
             argv, exp_rem, parsed, bint = cli_args(channel, name, payload)
-            rem = p.parse_command_line(argv)
+            if channel == "empty-args":
+                saved_argv = sys.argv
+                sys.argv = ["prog", "--%s=%s" % (name, payload), "--b-int=9"]
+                try:
+                    rem = p.parse_command_line(argv)
+                finally:
+                    sys.argv = saved_argv
+            else:
+                rem = p.parse_command_line(argv)
         return ("ok", None, rem, p, bint, exp_rem, parsed)
     except Exception as e:
         return ("raise", e, None, p, bint, exp_rem, parsed)
